@@ -539,9 +539,15 @@ func oracleC03(h *HistSys, hist []Op, w *world.World, obs Obs) *Finding {
 			if len(obs.Posted) > 0 {
 				continue
 			}
-			// app/pool level: the number of IPs held under the prefix must not drop below min(before, bound in force)
+			// app/pool level: the number of IPs held under the prefix must not drop below min(before, bound in force); "before"
+			// counts what the predecessor records, not what only its closure would have adopted (see `recorded`)
 			prefix := k.PoolPrefix()
-			bound := cnt1(prefix)
+			bound := 0
+			for _, x := range q1 {
+				if x.Alloc && strings.HasPrefix(x.Key, prefix) && recorded[x.IP] {
+					bound++
+				}
+			}
 			if k.PoolName == "" && s.Policy == 1 {
 				if r := w.Replicas("Deployment", k.Namespace, k.AppName); r < bound {
 					bound = r
